@@ -100,6 +100,32 @@ def generate(rng, tier):
             for qtag in ("sta", "dyn"):
                 cases.append({"line": i2_line(S, xs, ys, shape, flat, False, e_ainto(S, [len(qx)], bad, qx, qy, qtag=qtag, lay=ql, blay=bl),
                                               dtag="dyn"), "meta": {"badbuf": True}})
+    # signed zeros (seed C19-r7m1: a fast path that copies the previous result row when the next query compares equal to the previous
+    # one — +0.0 == -0.0, but the two queries give results that differ in the sign of a zero): a knot at exactly 0, samples -0.0 / 0.0 there,
+    # neighbouring queries 0.0, -0.0 in both orders, and plain repeated queries
+    for _ in range(gen.N(tier, 30, 300)):
+        n = rng.choice([2, 3, 4])
+        k0 = rng.randrange(n)
+        h = rng.choice([1.0, 0.5, 3.0])
+        xs = [(i - k0) * h for i in range(n)]
+        trailing = rng.choice([[], [], [2]])
+        L = gen.shape_size(trailing)
+        flat = [rng.choice([-0.0, 0.0, 1.5, -2.0]) for _ in range(n * L)]
+        for l in range(L):
+            flat[k0 * L + l] = rng.choice([-0.0, -0.0, 0.0])
+        qs = rng.choice([[0.0, -0.0], [-0.0, 0.0], [0.0, -0.0, 0.0, 0.0], [xs[0], xs[0], -0.0, 0.0], [-0.0, -0.0, 0.0]])
+        qs = [q for q in qs if xs[0] <= q <= xs[-1]]
+        if len(qs) < 2:
+            continue
+        two = rng.random() < 0.3
+        for qtag in ("sta", "dyn"):
+            if not two:
+                cases.append({"line": i1_line("F", None if (k0 == 0 and h == 1.0 and rng.random() < 0.5) else xs, [n] + trailing, flat, ("lin", False),
+                                              e_array("F", [len(qs)], qs, qtag=qtag), dtag="dyn"), "meta": {"oob": False}})
+            else:
+                ya = [0.0, 1.0]
+                cases.append({"line": i2_line("F", xs, ya, [n, 2] + trailing, [flat[i * L + l] for i in range(n) for _ in range(2) for l in range(L)],
+                                              False, e_array("F", [len(qs)], qs, [0.0] * len(qs), qtag=qtag), dtag="dyn"), "meta": {"oob": False}})
     return cases
 
 
